@@ -1,103 +1,127 @@
 """C14 - A* returns a valid, shortest path between the cells the caller named  (chain validity and end points decided;
 optimality declined).
 
+Decided on the abstract interpretation of the numba helpers (stores, guards, loop-carried updates, inlined helper
+records) by exact evaluation over finite decision tables, and on the wrapper's dataflow:
 A1 coordinate -> cell is round-to-nearest with the cell size and origin of its own axis; A2 step cost and heuristic are
-the same Euclidean metric (admissible, consistent); A3 neighbourhood tables are exactly the 8 / 4 unit offsets, consumed
-in (row, col) order; A4 the path image receives g-costs (never f = g + h), start = 0, NaN-initialised; A5 a neighbour is
-relaxed only after the bounds, crossable and closed tests, with g = g[current] + distance(current, neighbour), parent =
-current; A6 snapping is an argmin over crossable cells whose running minimum starts above every attainable distance.
+the same Euclidean metric (admissible, consistent); A3 neighbourhood tables are exactly the 8 / 4 unit offsets, row
+offsets reach the row index and column offsets the column index; A4 the path image receives g-costs (never f = g + h),
+start = 0, NaN-initialised, the back-pointer walk copies cost[cell] along parent pointers from goal to start; A5 a
+neighbour is relaxed exactly when it is inside the raster, crossable, not closed and (not open or not worse), with
+g = g[current] + distance(current, neighbour), f = g + admissible heuristic, parent = current, the array reads guarded by
+the bounds test; the current cell is the min-f open cell, popped and closed; the search stops at the goal; A6 argmin
+loops (min-cost open cell, snapping) scan every cell with a strict running minimum that starts above every attainable
+value.
 """
 import ast
+from fractions import Fraction
 
-from ..astutil import calls, const, kw, parent_map, short
-from ..kai import cond_key, cmp_cond, interpret
-from ..kutil import Spec, show
+from ..astutil import calls, const, kw, short
+from ..kai import Arr, TupleV, cond_repr, flatten_and, interpret
+from ..kutil import CannotEvaluate, Spec, eval_cond_full, evaluate, guard_atoms, show
 from ..program import AnalysisIncomplete, Func, norm
-from ..sym import App, Rat
+from ..sym import App, Rat, Sym, subst, walk_atoms
 
 UNIT8 = {(-1, -1), (-1, 0), (-1, 1), (0, -1), (0, 1), (1, -1), (1, 0), (1, 1)}
 UNIT4 = {(0, -1), (-1, 0), (1, 0), (0, 1)}
-# argmin loops whose initial value is not +inf, accepted with their reason (DESIGN C14-A6)
-ARGMIN_TABLE = {'_min_cost_pixel_id': ('(height + width) ** 2',
-                                       'f = g + h <= sqrt(2)*h*w + diagonal < 4*h*w <= (h+w)^2 for every reachable cell')}
+# argmin loops whose initial value is not +inf, accepted with their reason (DESIGN C14-A6); keyed by the normalised
+# initial value as the interpreter sees it
+ARGMIN_TABLE = {"2*shape('cost', 0)*shape('cost', 1) + shape('cost', 0)^2 + shape('cost', 1)^2":
+                'f = g + h <= sqrt(2)*h*w + diagonal < 4*h*w <= (h+w)^2 for every reachable cell'}
+ENTRY = 'a_star_search'
 
 
+def F(x):
+    return Fraction(x)
+
+
+def _all(guards, env):
+    return all(eval_cond_full(g, env) for g in guards)
+
+
+# ------------------------------------------------------------------------------------------------ A1
 def check_pixel_id(prog, rep, m):
     f = m.funcs.get('_get_pixel_id')
     if f is None:
         raise AnalysisIncomplete('_get_pixel_id not found')
-    entry = 'a_star_search'
     res = {}
+    skip = set()
     for n in f.own_nodes():
         if isinstance(n, ast.Assign) and isinstance(n.value, ast.Call):
             t = prog.resolve_callable(f, m, n.value.func)
             if isinstance(t, Func) and t.name == 'get_dataarray_resolution' and isinstance(n.targets[0], ast.Tuple):
                 res[n.targets[0].elts[0].id] = Rat.sym('cellsize_x')
                 res[n.targets[0].elts[1].id] = Rat.sym('cellsize_y')
+                skip.add(n)
     coords = {}
     for n in f.own_nodes():
         if isinstance(n, ast.Assign) and isinstance(n.targets[0], ast.Name) and 'coords[' in norm(n.value):
             t = norm(n.value)
             if 'ydim' in t:
                 coords[n.targets[0].id] = 'y'
+                skip.add(n)
             elif 'xdim' in t:
                 coords[n.targets[0].id] = 'x'
+                skip.add(n)
     rets = [n for n in f.own_nodes() if isinstance(n, ast.Return)]
-    if len(rets) != 1 or not isinstance(rets[0].value, ast.Tuple) or len(rets[0].value.elts) != 2 or len(res) != 2:
-        rep.add('A1', f, entry, '_get_pixel_id', f.node.lineno, None, 'expected `return py, px` and the resolution unpacking')
+    if len(rets) != 1 or not isinstance(rets[0].value, ast.Tuple) or len(rets[0].value.elts) != 2 or len(res) != 2 or \
+            set(coords.values()) != {'x', 'y'}:
+        rep.add('A1', f, ENTRY, '_get_pixel_id', f.node.lineno, None, 'expected `return row, col`, the resolution unpacking '
+                'and the two coordinate arrays')
         return
     env = dict(res)
-    env['point'] = Rat.sym('point')   # subscripted below
-    from ..kai import TupleV
-    env['point'] = TupleV([Rat.sym('point_y'), Rat.sym('point_x')])
+    env[f.params[0]] = TupleV([Rat.sym('point_y'), Rat.sym('point_x')])
     for cn, ax in coords.items():
         env[cn] = TupleV([Rat.sym('origin_' + ax)])
     sp = Spec(prog, env, m)
-    for axis, (retname, ax) in enumerate(zip(rets[0].value.elts, ('y', 'x'))):
-        vals = [v for v in f.local_assigns().get(norm(retname), []) if isinstance(v, ast.AST)]
-        if len(vals) != 1:
-            rep.add('A1', f, entry, 'pixel index %s' % norm(retname), f.node.lineno, None, 'single definition not found')
-            continue
-        v = vals[0]
+    # straight-line locals (tuple unpacking of the point, hoisted quotients, ...) in program order
+    for s in f.node.body:
+        if isinstance(s, ast.Assign) and s not in skip and not any(
+                isinstance(x, ast.Name) and x.id in (f.params[1:]) for x in ast.walk(s.value)):
+            try:
+                sp.it.stmt(s)
+            except AnalysisIncomplete:
+                pass
+    for retname, ax in zip(rets[0].value.elts, ('y', 'x')):
         ok = False
         why = ''
         try:
-            got = sp.it.as_scalar(sp.it.ev(v))
+            got = sp.it.as_scalar(sp.it.ev(retname))
             q = sp.it.app('abs', [Rat.sym('point_' + ax) - Rat.sym('origin_' + ax)]) / Rat.sym('cellsize_' + ax)
-            at = None
-            if got.d.is_const() and len(got.n.t) == 1:
-                (mm, c), = got.n.t.items()
-                if len(mm) == 1 and isinstance(mm[0][0], App) and c == got.d.const_value():
-                    at = mm[0][0]
+            at = _single_atom(got)
             if at is not None and at.name == 'int':
-                # int(round(q)) / int(np.rint(q))
-                inner = at.args[0]
-                if inner.d.is_const() and len(inner.n.t) == 1:
-                    (m2, c2), = inner.n.t.items()
-                    if len(m2) == 1 and isinstance(m2[0][0], App) and m2[0][0].name == 'round' and c2 == inner.d.const_value():
-                        at = m2[0][0]
+                inner = _single_atom(at.args[0])
+                if inner is not None and inner.name == 'round':
+                    at = inner
             if at is not None and at.name == 'int':
                 d = at.args[0] - q
-                ok = d.is_const() and d.const_value() == 0.5 or (d.is_const() and str(d.const_value()) == '1/2')
+                ok = d.is_const() and d.const_value() == Fraction(1, 2)
                 why = 'int(q %+s): truncation maps a cell\'s own coordinate to the previous cell when q is e.g. 6.9999' % (
                     d.const_value() if d.is_const() else '?')
             elif at is not None and at.name == 'round':
-                inner = at.args[0]
-                if inner.d.is_const() and len(inner.n.t) == 1:
-                    pass
                 ok = (at.args[0] - q).is_const() and (at.args[0] - q).const_value() == 0
                 why = 'round(q)'
             else:
                 why = 'unrecognised form %s' % show(got, 120)
         except AnalysisIncomplete as e:
             why = str(e)
-        rep.add('A1', f, entry, '%s = %s' % (norm(retname), norm(v)), v.lineno, ok,
+            ok = None
+        rep.add('A1', f, ENTRY, '%s index = %s' % ('row' if ax == 'y' else 'column', norm(retname)), rets[0].lineno, ok,
                 'a coordinate denotes the cell whose centre is nearest: the %s index must be round-to-nearest of '
                 '|point_%s - origin_%s| / cellsize_%s (int(q + 0.5), round); %s' % ('row' if ax == 'y' else 'column', ax, ax, ax, why))
 
 
-def check_metric(prog, rep, m):
-    entry = 'a_star_search'
+def _single_atom(r):
+    """the App a with r == a (coefficient 1), else None"""
+    if isinstance(r, Rat) and r.d.is_const() and len(r.n.t) == 1:
+        (mm, c), = r.n.t.items()
+        if len(mm) == 1 and mm[0][1] == 1 and isinstance(mm[0][0], App) and c == r.d.const_value():
+            return mm[0][0]
+    return None
+
+
+# ------------------------------------------------------------------------------------------------ A2
+def check_metric(prog, rep, m, c):
     d = m.funcs.get('_distance')
     h = m.funcs.get('_heuristic')
     if d is None or h is None:
@@ -106,7 +130,7 @@ def check_metric(prog, rep, m):
     want = Spec(prog, {p: Rat.sym(p) for p in d.params}).expr('sqrt((%s - %s) ** 2 + (%s - %s) ** 2)' % (
         d.params[0], d.params[2], d.params[1], d.params[3]))
     got = kd.returns[0][0] if kd.returns else None
-    rep.add('A2', d, entry, '_distance = %s' % show(got, 120), d.node.lineno, isinstance(got, Rat) and got == want,
+    rep.add('A2', d, ENTRY, '_distance = %s' % show(got, 120), d.node.lineno, isinstance(got, Rat) and got == want,
             'the step cost must be the Euclidean distance between the two pixels (1 for edge steps, sqrt 2 for diagonals)')
     kh = interpret(prog, h)
     goth = kh.returns[0][0] if kh.returns else None
@@ -116,224 +140,919 @@ def check_metric(prog, rep, m):
     if isinstance(goth, Rat) and not ok and not wanth.n.is_zero():
         r = goth / wanth
         ok = r.is_const() and 0 <= r.const_value() <= 1
-    rep.add('A2', h, entry, '_heuristic = %s' % show(goth, 120), h.node.lineno, ok,
+    rep.add('A2', h, ENTRY, '_heuristic = %s' % show(goth, 120), h.node.lineno, ok,
             'the heuristic must never overestimate the remaining cost: Euclidean distance (or a fraction of it, or 0); '
             'e.g. Manhattan distance is inadmissible with diagonal steps and loses optimality')
+    c.dist_f, c.heur_f = d, h
 
 
-def check_tables(prog, rep, m):
-    entry = 'a_star_search'
-    f = m.funcs.get('_neighborhood_structure')
-    if f is None:
-        raise AnalysisIncomplete('_neighborhood_structure not found')
-    ifs = [n for n in f.node.body if isinstance(n, ast.If)]
-    ok = len(ifs) == 1 and norm(ifs[0].test).replace(' ', '') == 'connectivity==8'
-    if not ok:
-        rep.add('A3', f, entry, 'connectivity branch', f.node.lineno, None, '`if connectivity == 8` not found')
+# ------------------------------------------------------------------------------------------------ A3 tables
+def check_tables(prog, rep, m, c):
+    """neighbourhood tables by position: returns {'8': (list0, list1), '4': ...} of the structure function's result"""
+    pub = c.pub
+    # the call whose two results reach the kernel's table parameters
+    tcall = None
+    for n in pub.own_nodes():
+        if isinstance(n, ast.Assign) and isinstance(n.value, ast.Call) and isinstance(n.targets[0], ast.Tuple) and \
+                len(n.targets[0].elts) == 2 and all(isinstance(e, ast.Name) for e in n.targets[0].elts):
+            names = [e.id for e in n.targets[0].elts]
+            if set(names) == {c.kargs.get(c.rows_param), c.kargs.get(c.cols_param)}:
+                t = prog.resolve_callable(pub, m, n.value.func)
+                if isinstance(t, Func):
+                    tcall = (n, t, names)
+    if tcall is None:
+        rep.add('A3', pub, ENTRY, 'neighbourhood tables passed to the search', pub.node.lineno, None,
+                'the two table arguments are not the unpacked result of one structure function')
         return
+    n, f, names = tcall
+    pos_rows = names.index(c.kargs[c.rows_param])
+    pos_cols = names.index(c.kargs[c.cols_param])
+    conn_ok = len(n.value.args) == 1 and norm(n.value.args[0]) == 'connectivity' or \
+        (kw(n.value, 'connectivity') is not None and norm(kw(n.value, 'connectivity')) == 'connectivity')
+    rep.add('A3', pub, ENTRY, norm(n), n.lineno, conn_ok, 'the tables must be built for the caller\'s connectivity')
+    ifs = [x for x in f.node.body if isinstance(x, ast.If)]
+    ok = len(ifs) == 1 and norm(ifs[0].test).replace(' ', '') in ('connectivity==8', '8==connectivity')
+    rets = [x for x in f.own_nodes() if isinstance(x, ast.Return)]
+    if not ok or len(rets) != 1 or not isinstance(rets[0].value, ast.Tuple) or len(rets[0].value.elts) != 2:
+        rep.add('A3', f, ENTRY, 'connectivity branch', f.node.lineno, None, '`if connectivity == 8` / `return a, b` not found')
+        return
+
+    def listname(e):
+        if isinstance(e, ast.Call) and short(e) in ('array', 'asarray') and e.args and isinstance(e.args[0], ast.Name):
+            return e.args[0].id
+        return e.id if isinstance(e, ast.Name) else None
+    ret_names = [listname(e) for e in rets[0].value.elts]
     for label, body, want in (('8', ifs[0].body, UNIT8), ('4', ifs[0].orelse, UNIT4)):
         tab = {}
         for s in body:
             if isinstance(s, ast.Assign) and isinstance(s.targets[0], ast.Name):
                 tab[s.targets[0].id] = const(s.value)
-        ys, xs = tab.get('neighbor_ys'), tab.get('neighbor_xs')
+        ys, xs = tab.get(ret_names[pos_rows]), tab.get(ret_names[pos_cols])
         good = isinstance(ys, list) and isinstance(xs, list) and len(ys) == len(xs) == len(want) and \
             set(zip(ys, xs)) == want
-        rep.add('A3', f, entry, '%s-connectivity offsets %s' % (label, sorted(zip(ys or [], xs or []))), ifs[0].lineno, good,
-                'the %s-neighbourhood must be exactly the %s unit offsets' % (label, len(want)))
-    rets = [n for n in f.own_nodes() if isinstance(n, ast.Return)]
-    ok = len(rets) == 1 and norm(rets[0].value).replace(' ', '') == '(np.array(neighbor_ys),np.array(neighbor_xs))'
-    rep.add('A3', f, entry, norm(rets[0]) if rets else 'return', f.node.lineno, ok, 'tables are returned as (rows, cols)')
-    pub = m.funcs.get('a_star_search')
-    ok = any(isinstance(n, ast.Assign) and norm(n).replace(' ', '') ==
-             'neighbor_ys,neighbor_xs=_neighborhood_structure(connectivity)' for n in pub.own_nodes())
-    rep.add('A3', pub, entry, 'neighbor_ys, neighbor_xs = _neighborhood_structure(connectivity)', pub.node.lineno, ok,
-            'tables are unpacked as (rows, cols) with the caller\'s connectivity')
-    ok = any(isinstance(n, ast.If) and norm(n.test).replace(' ', '') == 'connectivity!=4andconnectivity!=8' for n in pub.own_nodes())
-    rep.add('A3', pub, entry, 'connectivity validated', pub.node.lineno, ok, 'only 4 and 8 are meaningful')
+        rep.add('A3', f, ENTRY, '%s-connectivity (row, col) offsets %s' % (label, sorted(zip(ys or [], xs or []))), ifs[0].lineno, good,
+                'the %s-neighbourhood must be exactly the %s unit offsets (row offsets from result %d, column offsets from '
+                'result %d of the structure function)' % (label, len(want), pos_rows, pos_cols))
+    ok = any(isinstance(x, ast.If) and norm(x.test).replace(' ', '') in ('connectivity!=4andconnectivity!=8', 'connectivitynotin(4,8)',
+                                                                          'connectivity!=8andconnectivity!=4', 'connectivitynotin(8,4)')
+             and any(isinstance(y, ast.Raise) for y in x.body) for x in pub.own_nodes())
+    rep.add('A3', pub, ENTRY, 'connectivity validated', pub.node.lineno, ok, 'only 4 and 8 are meaningful')
 
 
-def check_search(prog, rep, m):
-    entry = 'a_star_search'
-    f = m.funcs.get('_a_star_search')
-    pub = m.funcs.get('a_star_search')
-    if f is None:
-        raise AnalysisIncomplete('_a_star_search not found')
-    loops = [n for n in f.own_nodes() if isinstance(n, ast.For) and 'zip(' in norm(n.iter)]
-    if len(loops) != 1:
-        rep.add('A5', f, entry, 'neighbour loop', f.node.lineno, None, 'loop over the neighbour offsets not found')
+# ------------------------------------------------------------------------------------------------ helpers on kernels
+def first_return(k, env):
+    for v, g in k.returns:
+        if _all(g, env):
+            return v
+    return None
+
+
+def check_crossable(prog, rep, m, f):
+    """_is_not_crossable(v, barriers): True for NaN, True when v equals some barrier, else False"""
+    k = interpret(prog, f, strict=False)
+    v = Sym(f.params[0])
+    atoms = set()
+    for val, g in k.returns:
+        atoms |= guard_atoms(g)
+    nan = [a for a in atoms if isinstance(a, App) and a.name == 'isnan' and a.args[0] == Rat.atom(v)]
+    bar = [a for a in atoms if isinstance(a, App) and a.name in ('elem', 'read') and len(f.params) > 1 and
+           f.params[1] in repr(a.args[0])]
+    rest = [a for a in atoms if a not in nan + bar + [v] and not (isinstance(a, Sym) and '@' in a.name)
+            and not (isinstance(a, Sym) and a.name in f.params)]
+    if len(nan) != 1 or len(bar) != 1 or rest:
+        rep.add('A5', f, ENTRY, '%s: NaN or any barrier value' % f.name, f.node.lineno, None if rest else False,
+                'the crossable test must look at isnan(value) and value == barrier only (NaN tests %d, barrier reads %d, other %s)' % (
+                    len(nan), len(bar), show(rest, 100)))
         return
-    lp = loops[0]
-    ok = norm(lp.iter).replace(' ', '') == 'zip(neighbor_ys,neighbor_xs)' and norm(lp.target).replace(' ', '') in ('(y,x)', 'y,x')
-    body = lp.body
-    ny = nx = None
-    for s in body:
-        if isinstance(s, ast.Assign) and norm(s.value).replace(' ', '') == 'py+y':
-            ny = s.targets[0].id
-        if isinstance(s, ast.Assign) and norm(s.value).replace(' ', '') == 'px+x':
-            nx = s.targets[0].id
-    rep.add('A3', f, entry, 'neighbour = (py + y, px + x) for (y, x) in zip(rows table, cols table)', lp.lineno,
-            ok and ny is not None and nx is not None, 'row offsets must be added to the row index and column offsets to the column index')
-    if ny is None or nx is None:
+    # the barrier comparison sits in a loop over all barriers
+    loops_ok = len(k.loops) == 1 and (getattr(k.loops[0], 'iterable', None) == ('param', f.params[1]) or
+                                      (k.loops[0].kind == 'range' and k.loops[0].lo == Rat.const(0) and
+                                       k.loops[0].hi == Rat.atom(App('shape', [f.params[1], 0]))))
+    res = []
+    try:
+        for title, isn, val, b, want in (('NaN', 1, 5, 7, True), ('NaN equal to nothing', 1, 5, 5, True),
+                                         ('value equals the barrier', 0, 5, 5, True), ('value differs', 0, 5, 7, False),
+                                         ('value differs (barrier smaller)', 0, 5, 3, False)):
+            r = first_return(k, {nan[0]: F(isn), v: F(val), bar[0]: F(b)})
+            got = r[1] if isinstance(r, tuple) and r[0] == 'const' else None
+            res.append((title, got, want))
+    except CannotEvaluate as e:
+        rep.add('A5', f, ENTRY, '%s: NaN or any barrier value' % f.name, f.node.lineno, None, 'not evaluable: %s' % e)
         return
-    # guards (continue) in order
-    guards = [(i, s) for i, s in enumerate(body) if isinstance(s, ast.If) and len(s.body) == 1 and isinstance(s.body[0], ast.Continue)]
-    stores = [(i, s) for i, s in enumerate(body) if isinstance(s, ast.Assign) and isinstance(s.targets[0], ast.Subscript)]
-    first_store = min([i for i, s in stores], default=None)
-    env = {ny: Rat.sym('ny'), nx: Rat.sym('nx'), 'height': Rat.sym('H'), 'width': Rat.sym('W')}
-    sp = Spec(prog, env, m)
+    bad = [(t, g) for t, g, w in res if g != w]
+    rep.add('A5', f, ENTRY, '%s: NaN or any barrier value' % f.name, f.node.lineno, not bad and loops_ok,
+            'NaN cells and cells equal to a barrier value are not crossable; everything else is (wrong for %s%s)' % (
+                bad, '' if loops_ok else '; the comparison must run over every barrier'))
 
-    def bounds_ok(test):
-        try:
-            c = sp.it.cond_of(sp.it.ev(test), test)
-        except AnalysisIncomplete:
-            return False
-        if c[0] != 'or':
-            return False
-        keys = {cond_key(x) for x in c[1:]}
-        NY, NX, H, W = Rat.sym('ny'), Rat.sym('nx'), Rat.sym('H'), Rat.sym('W')
-        one = Rat.const(1)
-        zero = Rat.const(0)
-        alts = [
-            {cond_key(cmp_cond('>', NY, H - one)), cond_key(cmp_cond('>=', NY, H))},
-            {cond_key(cmp_cond('<', NY, zero)), cond_key(cmp_cond('<=', NY, -one))},
-            {cond_key(cmp_cond('>', NX, W - one)), cond_key(cmp_cond('>=', NX, W))},
-            {cond_key(cmp_cond('<', NX, zero)), cond_key(cmp_cond('<=', NX, -one))},
-        ]
-        return len(keys) == 4 and all(keys & a for a in alts)
-    kinds = []
-    for i, s in guards:
-        if first_store is not None and i > first_store:
-            continue
-        t = norm(s.test).replace(' ', '')
-        if bounds_ok(s.test):
-            kinds.append('bounds')
-        elif t in ('_is_not_crossable(data[%s][%s],barriers)' % (ny, nx), '_is_not_crossable(data[%s,%s],barriers)' % (ny, nx)):
-            kinds.append('crossable')
-        elif t in ('is_closed[%s,%s]' % (ny, nx), 'is_closed[%s][%s]' % (ny, nx)):
-            kinds.append('closed')
-        else:
-            kinds.append('other:' + t[:50])
-    rep.add('A5', f, entry, 'guards before relaxation: %s' % kinds, lp.lineno,
-            kinds[:1] == ['bounds'] and set(kinds) >= {'bounds', 'crossable', 'closed'} and kinds.index('bounds') == 0,
-            'a neighbour may be relaxed only after (1) the in-raster test on both axes with their own extents, (2) the '
-            'crossable test (barrier / NaN), (3) the closed-set test; the bounds test must come first')
-    # g update
-    dvals = [s for s in body if isinstance(s, ast.Assign) and isinstance(s.targets[0], ast.Name) and '_distance(' in norm(s.value)]
-    okd = False
+
+def check_argmin(prog, rep, m, g, role):
+    """generic running-minimum scan: for every cell (full range of both axes) the minimum and its coordinates are
+    replaced exactly when the cell is eligible and its value is strictly smaller; returns role facts"""
+    k = interpret(prog, g, strict=False)
+    inner = [L for L in k.loops if getattr(L, 'carried', None) and
+             any(isinstance(p, Rat) and _single_atom(p) is not None and _single_atom(p).name == 'ite' for _, p in L.carried.values())]
+    inner = [L for L in inner if L.kind == 'range']
+    if not inner:
+        rep.add('A6', g, ENTRY, '%s: running minimum scan' % g.name, g.node.lineno, None, 'no loop-carried running minimum found')
+        return None
+    L = inner[-1]
+    outer = [Lo for Lo in k.loops if Lo.kind == 'range' and Lo is not L and any(n in getattr(Lo, 'phi', {}) for n in L.carried)]
+    facts = {'k': k}
+    # which carried name is the minimum: the one whose loop-phi is compared (<) with a candidate inside its own update
+    def leaves(r):
+        at = _single_atom(r)
+        if at is not None and at.name == 'ite':
+            return leaves(at.args[1]) + leaves(at.args[2])
+        return [r]
+
+    def conds(r):
+        at = _single_atom(r)
+        if at is not None and at.name == 'ite':
+            return [at.args[0]] + conds(at.args[1]) + conds(at.args[2])
+        return []
+    cands = {n: (phi, post) for n, (phi, post) in L.carried.items()
+             if _single_atom(post) is not None and _single_atom(post).name == 'ite'}
+    mins = []
+    for n, (phi, post) in cands.items():
+        pa = next(iter(phi.atoms()))
+        if any(x[1] in ('<', '<=') and pa in walk_atoms(x[2]) for cnd in conds(post) for x in _cmps(cnd)):
+            mins.append(n)
+    if len(mins) != 1:
+        rep.add('A6', g, ENTRY, '%s: running minimum scan' % g.name, g.node.lineno, None, 'running minimum not identified (%s)' % mins)
+        return None
+    mn = mins[0]
+    phi, post = cands[mn]
+    M = next(iter(phi.atoms()))
+    vs = [v for v in leaves(post) if v != phi]
+    if len({repr(v) for v in vs}) != 1:
+        rep.add('A6', g, ENTRY, '%s: running minimum scan' % g.name, g.node.lineno, None, 'candidate value not unique: %s' % show(vs, 120))
+        return None
+    V = vs[0]
+    coords = [n for n in cands if n != mn]
+    # full scan
+    ok_range = len(outer) == 1
+    if ok_range:
+        Lo = outer[0]
+        ha, hb = _single_atom(Lo.hi), _single_atom(L.hi)
+        ok_range = Lo.lo == Rat.const(0) and L.lo == Rat.const(0) and Lo.step == Rat.const(1) and L.step == Rat.const(1) and \
+            ha is not None and hb is not None and ha.name == 'shape' and hb.name == 'shape' and ha.args[1] == 0 and \
+            hb.args[1] == 1 and ha.args[0] == hb.args[0]
+        facts['cell'] = (Rat.sym(Lo.var), Rat.sym(L.var))
+        facts['scanned'] = ha.args[0] if ha is not None and ha.name == 'shape' else None
+    rep.add('A6', g, ENTRY, '%s: scan covers every cell (rows x columns)' % g.name, L.node.lineno, ok_range,
+            'the argmin must look at every cell: rows 0..shape[0], columns 0..shape[1]')
+    if not ok_range:
+        return None
+    # eligibility atoms: the truth(...) leaves of the update conditions
+    elig_atoms = []
+    for cnd in conds(post):
+        for a, pol in _top_truths(cnd):
+            if a not in elig_atoms:
+                elig_atoms.append(a)
+    facts['V'] = V
+    vtop = _single_atom(V)
+    rows = []
+    try:
+        if vtop is None:
+            raise CannotEvaluate('candidate value is not a single quantity: %s' % show(V, 80))
+        import itertools
+        for bits in itertools.product((0, 1), repeat=len(elig_atoms)):
+            for vv in (5, 15):
+                env = {M: F(10), vtop: F(vv)}
+                for a, bt in zip(elig_atoms, bits):
+                    env[a] = F(bt)
+                newm = evaluate(post, env)
+                cs = []
+                for n in coords:
+                    p2, post2 = cands[n]
+                    env2 = dict(env)
+                    env2[next(iter(p2.atoms()))] = F(77)
+                    cell = facts['cell']
+                    env2[next(iter(cell[0].atoms()))] = F(3)
+                    env2[next(iter(cell[1].atoms()))] = F(4)
+                    cs.append(evaluate(post2, env2))
+                rows.append((bits, vv, newm, cs))
+    except CannotEvaluate as e:
+        rep.add('A6', g, ENTRY, '%s: running minimum update' % g.name, L.node.lineno, None, 'not evaluable: %s' % e)
+        return None
+    upd = [bits for bits, vv, newm, cs in rows if vv == 5 and newm == 5]
+    bad = [(bits, vv) for bits, vv, newm, cs in rows if (vv == 15 and newm != 10) or (vv == 5 and newm not in (5, 10))]
+    okone = len(upd) == 1
+    badc = [(bits, vv, cs) for bits, vv, newm, cs in rows
+            if len(cs) != 2 or (sorted(cs) != [3, 4] if (vv == 5 and newm == 5) else cs != [77, 77])]
+    rep.add('A6', g, ENTRY, '%s: minimum replaced exactly by eligible strictly smaller cells; coordinates follow' % g.name,
+            L.node.lineno, okone and not bad and not badc,
+            'an eligible cell with a smaller value must replace the running minimum and both coordinates; an ineligible or '
+            'larger one must change nothing (eligible settings %s, wrong minimum %s, wrong coordinates %s)' % (upd, bad, badc[:2]))
+    if not okone:
+        return None
+    facts['elig'] = [(a, bool(bt)) for a, bt in zip(elig_atoms, upd[0])]
+    # coordinates recorded as (row, col)
+    rowname = [n for n in coords if facts['cell'][0] in leaves(cands[n][1])]
+    colname = [n for n in coords if facts['cell'][1] in leaves(cands[n][1])]
+    facts['rowname'], facts['colname'] = (rowname[0] if rowname else None), (colname[0] if colname else None)
+    outs = []
+    for v, gd in k.returns:
+        if isinstance(v, TupleV) and len(v.items) == 2 and all(
+                isinstance(i, Rat) and _single_atom(i) is not None and _single_atom(i).name == 'loopout' for i in v.items):
+            outs.append([next(iter(_single_atom(i).args[0].atoms())).name for i in v.items])
+    rep.add('A6', g, ENTRY, '%s: returns (row, column) of the minimum: %s' % (g.name, outs), g.node.lineno,
+            len(outs) == 1 and outs[0] == [facts['rowname'], facts['colname']],
+            'the result is used as (row, column): the first element must be the row of the minimal cell, the second its column')
+    # initial value above every attainable one
+    init = outer[0].pre.get(mn)
+    txt = repr(init)
+    ok = isinstance(init, Rat) and (init == Rat.atom(App('inf', [])) or txt in ARGMIN_TABLE)
+    rep.add('A6', g, ENTRY, '%s: running minimum `%s` starts at %s' % (g.name, mn, show(init, 90)), g.node.lineno, ok,
+            'an argmin with a strict `<` test finds nothing when its initial value is attainable: it must start at +inf '
+            '(a corner-to-corner distance IS attained by the opposite corner, so the only crossable cell there is never '
+            'snapped to)' + (' [accepted: %s]' % ARGMIN_TABLE[txt] if txt in ARGMIN_TABLE else ''))
+    return facts
+
+
+def _cmps(c):
+    """all comparison nodes ('cmp', op, Rat) inside a condition in App-argument form"""
+    out = []
+    if isinstance(c, tuple) and c:
+        if c[0] == 'cmp':
+            out.append(c)
+        elif c[0] in ('and', 'or', 'not'):
+            for x in c[1:]:
+                out.extend(_cmps(x))
+    return out
+
+
+def _top_truths(c, pos=True):
+    """[(atom, polarity)] for truth(...) leaves of a condition: the atom must be non-zero (polarity True) or zero"""
+    out = []
+    if isinstance(c, tuple) and c:
+        if c[0] == 'truth' and isinstance(c[1], Rat):
+            at = _single_atom(c[1])
+            if at is not None:
+                out.append((at, pos))
+        elif c[0] == 'not':
+            out.extend(_top_truths(c[1], not pos))
+        elif c[0] in ('and', 'or'):
+            for x in c[1:]:
+                out.extend(_top_truths(x, pos))
+    return out
+
+
+# ------------------------------------------------------------------------------------------------ A4 reconstruct
+def check_reconstruct(prog, rep, m, r):
+    """roles of _reconstruct_path's parameters, decided on its interpretation"""
+    k = interpret(prog, r, strict=False)
+    wl = [L for L in k.loops if L.kind == 'while']
+    stores = k.stores
+    imgs = {s.arr.name for s in stores}
+    if len(wl) != 1 or len(imgs) != 1:
+        rep.add('A4', r, ENTRY, 'back-pointer walk', r.node.lineno, None, 'expected one while loop writing one image')
+        return None
+    L = wl[0]
+    img = next(iter(imgs))
+    inloop = [s for s in stores if s.loops and s.loops[-1] is L]
+    pre = [s for s in stores if not s.loops]
+    roles = {'img': img}
+    ok = len(inloop) == 1 and len(pre) == 1
+    why = ''
+    if ok:
+        s = inloop[0]
+        cy, cx = s.idx
+        va = _single_atom(s.value)
+        ok = va is not None and va.name == 'read' and tuple(va.args[1:]) == (cy, cx)
+        if ok:
+            roles['cost'] = va.args[0]
+            names = {n: phi for n, phi in L.phi.items() if phi in (cy, cx)}
+            ny = [n for n, phi in names.items() if phi == cy]
+            nx = [n for n, phi in names.items() if phi == cx]
+            ok = len(ny) == 1 and len(nx) == 1 and ny[0] in L.carried and nx[0] in L.carried
+            if ok:
+                py_at, px_at = _single_atom(L.carried[ny[0]][1]), _single_atom(L.carried[nx[0]][1])
+                ok = py_at is not None and px_at is not None and py_at.name == 'read' and px_at.name == 'read' and \
+                    tuple(py_at.args[1:]) == (cy, cx) and tuple(px_at.args[1:]) == (cy, cx)
+                why = 'the walk must step from a cell to (parent rows[cell], parent cols[cell])'
+                if ok:
+                    roles['py'], roles['px'] = py_at.args[0], px_at.args[0]
+                    gy, gx = L.pre.get(ny[0]), L.pre.get(nx[0])
+                    roles['goal'] = (gy[1] if isinstance(gy, tuple) and gy[0] == 'param' else None,
+                                     gx[1] if isinstance(gx, tuple) and gx[0] == 'param' else None)
+                    ps = pre[0]
+                    pa = _single_atom(ps.value)
+                    ok = pa is not None and pa.name == 'read' and pa.args[0] == roles['cost'] and tuple(pa.args[1:]) == tuple(ps.idx) \
+                        and all(_sym_name(i) in r.params for i in ps.idx)
+                    why = 'the start cell must receive cost[start]'
+                    if ok:
+                        roles['start'] = tuple(_sym_name(i) for i in ps.idx)
+                        sy, sx = ps.idx
+                        Y, X = next(iter(cy.atoms())), next(iter(cx.atoms()))
+                        SY, SX = next(iter(sy.atoms())), next(iter(sx.atoms()))
+                        try:
+                            t = [eval_cond_full(L.test, {Y: F(a), X: F(b), SY: F(2), SX: F(3)}) for a, b in ((2, 3), (2, 4), (1, 3), (0, 0))]
+                            ok = t == [False, True, True, True]
+                            why = 'the walk must continue exactly until the start cell is reached (got %s)' % t
+                        except CannotEvaluate as e:
+                            ok, why = None, 'loop test not evaluable: %s' % e
+    rep.add('A4', r, ENTRY, 'back-pointer walk copies cost[cell] into the image from goal to start', r.node.lineno, ok,
+            'the path is the chain of parent pointers from goal to start; each path cell holds its cumulative cost; ' + why)
+    if not ok:
+        return None
+    # no-path sentinel guards every write
+    sent = None
+    okg = True
+    try:
+        for s in stores:
+            g = s.guards[:1] if s.loops else s.guards
+            g = [x for x in s.guards if x is not L.test]
+            ats = [a for a in guard_atoms(g) if isinstance(a, App) and a.name == 'read' and a.args[0] in (roles['py'], roles['px'])]
+            if len(ats) != 2 or any(tuple(_sym_name(i) for i in a.args[1:]) != roles['goal'] for a in ats):
+                okg = False
+                continue
+            base = {a: F(4) for a in guard_atoms(g) if isinstance(a, (Sym,)) or (isinstance(a, App) and a.name != 'read')}
+            both = _all(g, {**base, ats[0]: F(2), ats[1]: F(3)})
+            none_ = [v for v in (-1, -2, 0) if not _all(g, {**base, ats[0]: F(v), ats[1]: F(v)})]
+            if not both or len(none_) != 1:
+                okg = False
+            else:
+                sent = none_[0]
+    except CannotEvaluate:
+        okg = None
+    rep.add('A4', r, ENTRY, 'nothing is written unless the goal has a parent (sentinel %s)' % sent, r.node.lineno, okg,
+            'when the goal was never reached (its parent is still the NONE sentinel) the image must stay NaN')
+    roles['sentinel'] = sent
+    return roles
+
+
+def _sym_name(r):
+    if isinstance(r, Rat):
+        a = _single_atom_sym(r)
+        return a
+    return None
+
+
+def _single_atom_sym(r):
+    if r.d.is_const() and len(r.n.t) == 1:
+        (mm, c), = r.n.t.items()
+        if len(mm) == 1 and mm[0][1] == 1 and isinstance(mm[0][0], Sym) and c == r.d.const_value():
+            return mm[0][0].name
+    return None
+
+
+# ------------------------------------------------------------------------------------------------ A5 search
+def check_search(prog, rep, m, c):
+    f = c.kernel
+    k = interpret(prog, f, strict=False)
+    inl = getattr(k, 'inlined', [])
+    wl = [L for L in k.loops if L.kind == 'while']
+    if len(wl) != 1:
+        rep.add('A5', f, ENTRY, 'search loop', f.node.lineno, None, 'expected one while loop')
+        return
+    Lw = wl[0]
+    pops = [s for s in k.stores if s.loops == (Lw,)]
+    idxs = {tuple(s.idx) for s in pops}
+    if len(idxs) != 1 or len(pops) != 2:
+        rep.add('A5', f, ENTRY, 'pop of the current cell', Lw.node.lineno, False if len(idxs) <= 1 and len(pops) < 2 else None,
+                'every iteration must clear the open flag AND set the closed flag of the one popped cell, found %d such stores '
+                '(a cell that is not closed is re-opened by its neighbours; one that stays open is popped forever)' % len(pops))
+        return
+    CY, CX = next(iter(idxs))
+
+    def cval(s):
+        v = s.value
+        at = _single_atom(v) if isinstance(v, Rat) else None
+        if at is not None and at.name == 'bool' and at.args[0][0] == 'const':
+            return bool(at.args[0][1])
+        if isinstance(v, Rat) and v.is_const():
+            return bool(v.const_value())
+        return None
+    opens = [s for s in pops if cval(s) is False]
+    closes = [s for s in pops if cval(s) is True]
+    uncond = all(len(s.guards) == 1 and s.guards[0] is Lw.test for s in pops)
+    rep.add('A5', f, ENTRY, 'current cell leaves the open list and enters the closed list', Lw.node.lineno,
+            len(opens) == 1 and len(closes) == 1 and uncond,
+            'every iteration must unconditionally clear the open flag and set the closed flag of the popped cell '
+            '(otherwise it is popped again forever or re-opened)')
+    if len(opens) != 1 or len(closes) != 1:
+        return
+    OPEN, CLOSED = opens[0].arr, closes[0].arr
+    # the current cell is the result of the min-cost helper on (f-cost, open flags)
+    sel = [r for r in inl if isinstance(r[3], TupleV) and len(r[3].items) == 2 and tuple(r[3].items) == (CY, CX)]
+    c.min_func = sel[0][0] if len(sel) == 1 else None
+    nl = [L for L in k.loops if any(s.loops == (Lw, L) for s in k.stores)]
+    if len(nl) != 1:
+        rep.add('A5', f, ENTRY, 'neighbour loop', Lw.node.lineno, None, 'expected one neighbour loop with stores, found %d' % len(nl))
+        return
+    Ln = nl[0]
+    relax = [s for s in k.stores if s.loops == (Lw, Ln)]
+    nidx = {tuple(s.idx) for s in relax}
+    if len(nidx) != 1:
+        rep.add('A5', f, ENTRY, 'relaxation target', Ln.node.lineno, False, 'all relaxation stores must address the one neighbour '
+                'cell (found %d different targets)' % len(nidx))
+        return
+    NY, NX = next(iter(nidx))
+    DY, DX = _single_atom(NY - CY), _single_atom(NX - CX)
+    okoff = DY is not None and DX is not None
+
+    def table_of(at):
+        """kernel parameter the offset atom is drawn from, per iteration of the neighbour loop"""
+        if at.name == 'elem' and isinstance(at.args[0], Rat):
+            z = _single_atom(at.args[0])
+            if z is not None and z.name == 'iter:zip' and at.args[1] == Rat.sym(Ln.var) and len(at.args) == 3:
+                i = int(at.args[2].const_value()) - 1
+                if 0 <= i < len(z.args):
+                    return _param_of(z.args[i])
+        if at.name in ('read', 'cell?') and len(at.args) == 2 and at.args[1] == Rat.sym(Ln.var) and Ln.kind == 'range' and \
+                Ln.lo == Rat.const(0) and Ln.step == Rat.const(1) and _single_atom(Ln.hi) is not None:
+            hi = _single_atom(Ln.hi)
+            # the loop runs over the whole of one of the (equally long) tables
+            if (hi.name == 'shape' and hi.args[1] == 0 and hi.args[0] in f.params) or \
+                    (hi.name == 'len' and _param_of(hi.args[0]) in f.params):
+                c.len_table = hi.args[0] if hi.name == 'shape' else _param_of(hi.args[0])
+                return at.args[0]
+        return None
+    c.rows_param = table_of(DY) if okoff else None
+    c.cols_param = table_of(DX) if okoff else None
+    rep.add('A3', f, ENTRY, 'neighbour = (current row + offset from %s, current column + offset from %s)' % (c.rows_param, c.cols_param),
+            Ln.node.lineno, okoff and c.rows_param in f.params and c.cols_param in f.params and c.rows_param != c.cols_param,
+            'each neighbour is the current cell plus one (row, column) offset pair taken in lock-step from the two tables')
+    if not okoff or c.rows_param not in f.params or c.cols_param not in f.params:
+        return
+    byarr = {}
+    for s in relax:
+        byarr.setdefault(s.arr.name, []).append(s)
+    # roles
+    G = [a for a, ss in byarr.items() if len(ss) == 1 and any(
+        isinstance(x, App) and x.name in ('cell?', 'read') and x.args[0] == a and tuple(x.args[1:3]) == (CY, CX)
+        for x in walk_atoms(ss[0].value)) and ss[0].arr is not OPEN]
+    PY = [a for a, ss in byarr.items() if len(ss) == 1 and ss[0].value == CY]
+    PX = [a for a, ss in byarr.items() if len(ss) == 1 and ss[0].value == CX]
+    OP = [a for a, ss in byarr.items() if ss[0].arr is OPEN]
     gname = None
-    if len(dvals) == 1:
-        v = dvals[0].value
-        t = norm(v).replace(' ', '')
-        for g in ('d_from_start',):
-            pass
-        if isinstance(v, ast.BinOp) and isinstance(v.op, ast.Add) and isinstance(v.left, ast.Subscript):
-            gname = norm(v.left.value)
-            okd = norm(v.left.slice).replace(' ', '') in ('(py,px)', 'py,px') and \
-                norm(v.right).replace(' ', '') in ('_distance(px,py,%s,%s)' % (nx, ny), '_distance(%s,%s,px,py)' % (nx, ny))
-    rep.add('A5', f, entry, norm(dvals[0]) if dvals else 'tentative cost', lp.lineno, okd,
-            'the tentative cost of a neighbour is g[current] + distance(current, neighbour) with (x, y) arguments in '
-            'the metric\'s order')
-    if gname:
-        dn = dvals[0].targets[0].id
-        st = {norm(s.targets[0]).replace(' ', ''): norm(s.value).replace(' ', '') for i, s in stores}
-        okg = st.get('%s[%s,%s]' % (gname, ny, nx)) == dn
-        okp = st.get('parent_ys[%s,%s]' % (ny, nx)) == 'py' and st.get('parent_xs[%s,%s]' % (ny, nx)) == 'px'
-        rep.add('A5', f, entry, 'g[neighbour] = d; parent[neighbour] = (py, px)', lp.lineno, okg and okp,
-                'relaxation must record the tentative cost and the current cell as the parent (rows with rows, columns with columns)')
-        # better-path test
-        bt = [s for i, s in guards if 'is_open' in norm(s.test)]
-        okb = len(bt) == 1 and norm(bt[0].test).replace(' ', '') in (
-            'is_open[%s,%s]andd>%s[%s,%s]' % (ny, nx, gname, ny, nx), 'is_open[%s,%s]andd>=%s[%s,%s]' % (ny, nx, gname, ny, nx))
-        rep.add('A5', f, entry, norm(bt[0].test) if bt else 'open-list test', lp.lineno, okb,
-                'a cell already in the open list is updated only when the new cost is not larger')
-        # A4: the path image receives g
-        rc = [c for c in calls(f.node) if short(c) == '_reconstruct_path']
-        ok4 = len(rc) == 1 and len(rc[0].args) >= 4 and norm(rc[0].args[3]) == gname and norm(rc[0].args[0]) == f.params[1]
-        rep.add('A4', f, entry, norm(rc[0])[:120] if rc else '_reconstruct_path call', lp.lineno, ok4,
-                'the path image must be filled from the cost-from-start array (g), not from f = g + heuristic')
-        s0 = any(isinstance(s, ast.Assign) and norm(s.targets[0]).replace(' ', '') == '%s[start_py,start_px]' % gname and
-                 const(s.value) == 0 for s in f.own_nodes())
-        rep.add('A4', f, entry, '%s[start] = 0' % gname, f.node.lineno, s0, 'the start cell has cost 0')
-    # goal test / termination
-    gt = [n for n in f.own_nodes() if isinstance(n, ast.If) and norm(n.test).replace(' ', '') == '(py,px)==(goal_py,goal_px)']
-    rep.add('A5', f, entry, 'goal test on the popped cell', f.node.lineno, len(gt) == 1 and
-            any(isinstance(x, ast.Return) for x in gt[0].body), 'the search stops when the goal is popped (its cost is final then)')
-    # reconstruct
-    r = m.funcs.get('_reconstruct_path')
-    if r is not None:
-        t = {norm(s).replace(' ', '') for s in r.own_nodes() if isinstance(s, ast.Assign)}
-        ok = 'path_img[current_y,current_x]=cost[current_y,current_x]' in t and \
-            'path_img[start_py,start_px]=cost[start_py,start_px]' in t and \
-            'parent_y=parent_ys[current_y,current_x]' in t and 'parent_x=parent_xs[current_y,current_x]' in t and \
-            'current_y=parent_y' in t and 'current_x=parent_x' in t
-        rep.add('A4', r, entry, 'back-pointer walk copies cost[cell] into path_img[cell]', r.node.lineno, ok,
-                'the path is the chain of parent pointers from goal to start; each path cell holds its cumulative cost')
-    # wrapper: NaN initialised image
-    t = [norm(s).replace(' ', '') for s in pub.own_nodes() if isinstance(s, ast.Assign)]
-    ok = 'path_img[:]=np.nan' in t and any(x.startswith('path_img=np.zeros_like(surface') for x in t)
-    rep.add('A4', pub, entry, 'path image NaN-initialised', pub.node.lineno, ok, 'cells off the path (and everything when '
-            'no route exists) must be NaN')
-    # crossable predicate
-    c = m.funcs.get('_is_not_crossable')
-    if c is not None:
-        ifs = [n for n in c.node.body if isinstance(n, ast.If)]
-        oknan = bool(ifs) and norm(ifs[0].test).replace(' ', '') == 'np.isnan(cell_value)' and norm(ifs[0].body[0]) == 'return True'
-        okb = any(isinstance(n, ast.If) and norm(n.test).replace(' ', '') in ('cell_value==i', 'i==cell_value') and
-                  norm(n.body[0]) == 'return True' for n in c.own_nodes())
-        last = norm(c.node.body[-1]) == 'return False'
-        rep.add('A5', c, entry, '_is_not_crossable: NaN or any barrier value', c.node.lineno, oknan and okb and last,
-                'NaN cells and cells equal to a barrier value are not crossable; everything else is')
+    # G appears in both g and f stores (f = g + h): g is the one whose value minus g[current] is the step length
+    dist = None
+    for a in G:
+        v = byarr[a][0].value
+        gc = [x for x in walk_atoms(v) if isinstance(x, App) and x.name in ('cell?', 'read') and x.args[0] == a and tuple(x.args[1:3]) == (CY, CX)]
+        if len(gc) == 1:
+            d = v - Rat.atom(gc[0])
+            if d == Spec(prog, {}).it.app('sqrt', [Rat.atom(DY) * Rat.atom(DY) + Rat.atom(DX) * Rat.atom(DX)]):
+                gname, dist, gcur = a, d, gc[0]
+    ok = gname is not None
+    rep.add('A5', f, ENTRY, 'g[neighbour] = g[current] + Euclidean step length', Ln.node.lineno, ok,
+            'the tentative cost of a neighbour is g[current] + distance(current, neighbour) (1 for edge steps, sqrt 2 for '
+            'diagonals); candidates %s' % [(a, show(byarr[a][0].value, 100)) for a in byarr if a not in PY + PX + OP][:3])
+    if not ok:
+        return
+    gval = byarr[gname][0].value
+    FA = [a for a in byarr if a not in (gname,) and a not in PY + PX + OP]
+    okp = len(PY) == 1 and len(PX) == 1 and PY != PX
+    rep.add('A5', f, ENTRY, 'parent[neighbour] = current cell (rows in %s, columns in %s)' % (PY, PX), Ln.node.lineno, okp,
+            'relaxation must record the current cell as the parent, its row in one array and its column in another')
+    oko = len(OP) == 1 and len(byarr[OP[0]]) == 1 and cval(byarr[OP[0]][0]) is True
+    rep.add('A5', f, ENTRY, 'neighbour enters the open list', Ln.node.lineno, oko, 'a relaxed neighbour must be opened')
+    okf = False
+    fname = None
+    whyf = 'no f-cost store'
+    if len(FA) == 1 and len(byarr[FA[0]]) == 1:
+        fname = FA[0]
+        hv = byarr[fname][0].value - gval
+        sp = Spec(prog, {})
+        goal_y, goal_x = Rat.sym(c.goal_params[0]), Rat.sym(c.goal_params[1])
+        eu = sp.it.app('sqrt', [(NY - goal_y) * (NY - goal_y) + (NX - goal_x) * (NX - goal_x)])
+        if hv == Rat.const(0) or hv == eu:
+            okf = True
+        elif not eu.n.is_zero():
+            r = hv / eu
+            okf = r.is_const() and 0 <= r.const_value() <= 1
+        whyf = 'f - g = %s' % show(hv, 120)
+    rep.add('A5', f, ENTRY, 'f[neighbour] = new g[neighbour] + admissible heuristic to the goal', Ln.node.lineno, okf,
+            'the priority must be the NEW cost-from-start plus a heuristic that never overestimates the Euclidean distance from '
+            'the neighbour to the goal; ' + whyf)
+    c.roles = {'G': gname, 'F': fname, 'PY': PY[0] if PY else None, 'PX': PX[0] if PX else None, 'OPEN': OPEN.name, 'CLOSED': CLOSED.name}
+    # the min-cost helper is applied to (f, open)
+    if c.min_func is not None and fname is not None:
+        args = sel[0][1]
+        okm = len(args) == 2 and isinstance(args[0], Arr) and isinstance(args[1], Arr) and \
+            args[0].name in (fname, gname) and args[1].name == OPEN.name
+        c.min_args = [a.name for a in args if isinstance(a, Arr)]
+        rep.add('A5', f, ENTRY, 'current cell = %s(%s)' % (c.min_func.name, ', '.join(c.min_args)), Lw.node.lineno, okm,
+                'the cell to expand must be chosen from the open flags by minimal f-cost (or g-cost: Dijkstra order), not from the closed flags')
+    else:
+        rep.add('A5', f, ENTRY, 'current cell = min-cost open cell', Lw.node.lineno, None, 'selection helper not identified')
+    # ---- relaxation condition: decision table
+    cross = [r for r in inl if isinstance(r[3], Rat) and any(
+        isinstance(x, App) and x.name in ('read', 'getitem') and c.data in repr(x) for x in walk_atoms(r[1][0] if r[1] and isinstance(r[1][0], Rat) else Rat.const(0)))
+        and r[0].name == c.cross_func.name]
+    H, W = App('shape', [c.data, 0]), App('shape', [c.data, 1])
+
+    def atoms_at_N(g):
+        """array-read atoms in a guard whose index mentions the neighbour offsets"""
+        out = []
+        for a in guard_atoms([g]):
+            if isinstance(a, App) and a.name in ('read', 'cell?', 'getitem') and a not in (DY, DX) and \
+                    (DY in walk_atoms(a) or DX in walk_atoms(a)):
+                out.append(a)
+        return out
+    s0 = byarr[gname][0]
+    guards = list(s0.guards)
+    flat = []
+    for g in guards:
+        flat.extend(flatten_and([g]) if g[0] == 'and' else [g])
+    allat = guard_atoms(guards)
+    CYa, CXa = next(iter(CY.atoms())), next(iter(CX.atoms()))
+    closed_at = [a for a in allat if isinstance(a, App) and a.name in ('read', 'cell?') and a.args[0] == CLOSED.name and tuple(a.args[1:3]) == (NY, NX)]
+    open_at = [a for a in allat if isinstance(a, App) and a.name in ('read', 'cell?') and a.args[0] == OPEN.name and tuple(a.args[1:3]) == (NY, NX)]
+    gn_at = [a for a in allat if isinstance(a, App) and a.name in ('read', 'cell?') and a.args[0] == gname and tuple(a.args[1:3]) == (NY, NX)]
+    # the crossable test of the neighbour: an inlined cross_func value whose argument is data[neighbour]
+    xat = []
+    for r in inl:
+        if r[0] is c.cross_func and isinstance(r[3], Rat) and _single_atom(r[3]) is not None and _single_atom(r[3]) in allat:
+            arg = r[1][0] if r[1] else None
+            aa = _single_atom(arg) if isinstance(arg, Rat) else None
+            isN = aa is not None and ((aa.name in ('read', 'cell?') and aa.args[0] == c.data and tuple(aa.args[1:3]) == (NY, NX)) or
+                                      (aa.name == 'getitem' and _single_atom(aa.args[0]) is not None and
+                                       _single_atom(aa.args[0]).name == 'read' and _single_atom(aa.args[0]).args[0] == c.data and
+                                       tuple(_single_atom(aa.args[0]).args[1:]) == (NY,) and aa.args[1] == NX))
+            if isN:
+                xat.append(_single_atom(r[3]))
+    sq = [a for a in walk_atoms(dist) if isinstance(a, App) and a.name == 'sqrt']
+    goal_y, goal_x = Sym(c.goal_params[0]), Sym(c.goal_params[1])
+    known = set(closed_at + open_at + gn_at + xat + sq + [CYa, CXa, DY, DX, H, W, gcur, goal_y, goal_x])
+
+    def env_for(cy, cx, dy, dx, x, cl, op, gn, goal=(99, 99)):
+        env = {CYa: F(cy), CXa: F(cx), DY: F(dy), DX: F(dx), H: F(5), W: F(7), gcur: F(10), goal_y: F(goal[0]), goal_x: F(goal[1])}
+        for a in sq:
+            env[a] = Fraction(3, 2)
+        for a in xat:
+            env[a] = F(x)
+        for a in closed_at:
+            env[a] = F(cl)
+        for a in open_at:
+            env[a] = F(op)
+        for a in gn_at:
+            env[a] = F(gn)
+        # the while test and anything else that is not about the neighbour: permissive binding where unambiguous
+        return env
+    wenv = {}
+    for a in guard_atoms([Lw.test]):
+        wenv[a] = F(1)
+    try:
+        if not eval_cond_full(Lw.test, wenv):
+            wenv = {a: F(-1) for a in wenv}
+    except CannotEvaluate:
+        pass
+    bad = []
+    und = None
+    pts = [(cy, cx, dy, dx) for cy in (0, 2, 4) for cx in (0, 3, 6) for dy in (-1, 0, 1) for dx in (-1, 0, 1) if (dy, dx) != (0, 0)]
+    try:
+        for s in relax:
+            for cy, cx, dy, dx in pts:
+                inb = 0 <= cy + dy <= 4 and 0 <= cx + dx <= 6
+                for x, cl, op, gn in ((0, 0, 0, 50), (1, 0, 0, 50), (0, 1, 0, 50), (0, 0, 1, 50), (0, 0, 1, 11), (0, 1, 1, 50), (1, 1, 1, 11)):
+                    env = {**wenv, **env_for(cy, cx, dy, dx, x, cl, op, gn)}
+                    act = _all(s.guards, env)
+                    # d = 10 + 3/2 = 11.5
+                    want = inb and x == 0 and cl == 0 and (op == 0 or Fraction(23, 2) < gn)
+                    if act != want:
+                        bad.append((s.arr.name, 'current (%d,%d) offset (%d,%d) not-crossable=%d closed=%d open=%d g[n]=%s: %s, expected %s' % (
+                            cy, cx, dy, dx, x, cl, op, gn, 'relaxed' if act else 'skipped', 'relaxed' if want else 'skipped')))
+    except CannotEvaluate as e:
+        und = str(e)
+    rep.add('A5', f, ENTRY, 'relaxation condition: inside, crossable, not closed, not worse than an open entry (%d stores x %d cases)' % (
+        len(relax), len(pts) * 7), Ln.node.lineno, None if und else not bad,
+        'a neighbour must be relaxed exactly when it lies inside the raster (both axes, own extents), is crossable, is not '
+        'closed and is either not open yet or reached more cheaply; %s' % (und or '; '.join('%s: %s' % b for b in bad[:3])))
+    # ---- reads at the neighbour come after the bounds test
+    okord = True
+    whyo = ''
+    try:
+        for i, g in enumerate(flat):
+            if atoms_at_N(g):
+                for cy, cx, dy, dx in pts:
+                    if not (0 <= cy + dy <= 4 and 0 <= cx + dx <= 6):
+                        env = {**wenv, **env_for(cy, cx, dy, dx, 0, 0, 0, 50)}
+                        if _all(flat[:i], env):
+                            okord = False
+                            whyo = '`%s` is evaluated for the neighbour (%d, %d) of a 5x7 raster' % (cond_repr(g)[:80], cy + dy, cx + dx)
+                            break
+            if not okord:
+                break
+    except CannotEvaluate as e:
+        okord, whyo = None, str(e)
+    rep.add('A5', f, ENTRY, 'arrays are read at the neighbour only after the bounds test', Ln.node.lineno, okord,
+            'reading data / flags at an index outside the raster wraps around (negative) or runs off the array; ' + whyo)
+    # ---- goal test
+    rc = []
+    for cl in k.calls:
+        if cl[0] in (c.recon_func.qualname, c.recon_func.name) and not any(cl[3] is x[3] for x in rc):
+            rc.append(cl)
+    okg = None
+    whyg = 'reconstruction call not found'
+    if len(rc) == 1:
+        try:
+            res = []
+            for cy, cx, want in ((2, 3, True), (2, 4, False), (1, 3, False)):
+                env = {**wenv, **env_for(cy, cx, 1, 0, 0, 0, 0, 50, goal=(2, 3))}
+                callact = _all(rc[0][2], env)
+                relact = any(_all(s.guards, env) for s in relax)
+                retact = any(g and _all(g, env) for v, g in k.returns if g)
+                res.append((callact, relact, retact, want))
+            okg = all(ca == w and ra == w and (not w or not rl) for ca, rl, ra, w in res)
+            whyg = 'at goal / beside goal: %s' % [(ca, rl, ra) for ca, rl, ra, w in res]
+        except CannotEvaluate as e:
+            okg, whyg = None, str(e)
+    rep.add('A5', f, ENTRY, 'the search stops and reconstructs exactly when the goal is popped', Lw.node.lineno, okg,
+            'when the popped cell is the goal its cost is final: the path must be reconstructed and the search ended, and not '
+            'before; ' + whyg)
+    # ---- A4: what the reconstruction receives
+    if len(rc) == 1 and c.recon_roles:
+        rr = c.recon_roles
+        args = rc[0][1]
+        byp = {}
+        for p, a in zip(c.recon_func.params, args):
+            byp[p] = a.name if isinstance(a, Arr) else (a[1] if isinstance(a, tuple) and a and a[0] == 'param' else _sym_name(a) if isinstance(a, Rat) else None)
+        ok4 = byp.get(rr['cost']) == gname and byp.get(rr['py']) == (PY[0] if PY else None) and byp.get(rr['px']) == (PX[0] if PX else None) \
+            and byp.get(rr['img']) == c.img_param and (byp.get(rr['start'][0]), byp.get(rr['start'][1])) == tuple(c.start_params) \
+            and (byp.get(rr['goal'][0]), byp.get(rr['goal'][1])) == tuple(c.goal_params)
+        rep.add('A4', f, ENTRY, 'reconstruction receives image=%s parents=(%s, %s) cost=%s start=(%s, %s) goal=(%s, %s)' % (
+            byp.get(rr['img']), byp.get(rr['py']), byp.get(rr['px']), byp.get(rr['cost']), byp.get(rr['start'][0]),
+            byp.get(rr['start'][1]), byp.get(rr['goal'][0]), byp.get(rr['goal'][1])), rc[0][3].lineno, ok4,
+            'the path image must be filled from the cost-from-start array (g = %s), not from f = g + heuristic, with row '
+            'parents / column parents and start / goal in their own roles' % gname)
+    # ---- start initialisation
+    init = [s for s in k.stores if not s.loops]
+    SY, SX = Rat.sym(c.start_params[0]), Rat.sym(c.start_params[1])
+    at_start = [s for s in init if tuple(s.idx) == (SY, SX)]
+    byi = {}
+    for s in at_start:
+        byi.setdefault(s.arr.name, []).append(s)
+    garr = byarr[gname][0].arr
+    g0 = [s for s in byi.get(gname, [])]
+    okg0 = (garr.init == 'zeros' and not g0) or (len(g0) == 1 and isinstance(g0[0].value, Rat) and g0[0].value == Rat.const(0)) or \
+        (garr.init == 'zeros' and all(isinstance(s.value, Rat) and s.value == Rat.const(0) for s in g0))
+    rep.add('A4', f, ENTRY, '%s[start] = 0 (%s)' % (gname, 'explicit store' if g0 else 'zero-initialised array'), f.node.lineno, okg0,
+            'the start cell has cost 0')
+    o0 = byi.get(OPEN.name, [])
+    oko0 = len(o0) == 1 and cval(o0[0]) is True
+    # opened only when crossable
+    xs = [_single_atom(r[3]) for r in inl if r[0] is c.cross_func and isinstance(r[3], Rat) and _single_atom(r[3]) is not None
+          and r[1] and isinstance(r[1][0], Rat) and _single_atom(r[1][0]) is not None and _single_atom(r[1][0]).name in ('read', 'cell?')
+          and tuple(_single_atom(r[1][0]).args[1:3]) == (SY, SX) and _single_atom(r[1][0]).args[0] == c.data]
+    if oko0:
+        try:
+            oko0 = bool(xs) and _all(o0[0].guards, {xs[0]: F(0)}) and not _all(o0[0].guards, {xs[0]: F(1)})
+        except CannotEvaluate:
+            oko0 = None
+    rep.add('A5', f, ENTRY, 'start enters the open list exactly when it is crossable', f.node.lineno, oko0,
+            'an uncrossable start must leave the open list empty (result all NaN); a crossable one must be opened')
+    pi = [(byi.get(PY[0] if PY else None, []), SY), (byi.get(PX[0] if PX else None, []), SX)]
+    okpi = all(len(ss) == 1 and ss[0].value == want for ss, want in pi)
+    parr = [byarr[a][0].arr for a in PY + PX]
+    fills = [a.init[1] if isinstance(a.init, tuple) and a.init[0] == 'full' else None for a in parr]
+    sent = c.recon_roles.get('sentinel') if c.recon_roles else None
+    okfill = len(fills) == 2 and all(isinstance(v, Rat) and v.is_const() and v.const_value() < 0 for v in fills) and \
+        (sent is None or all(v.const_value() == sent for v in fills))
+    rep.add('A4', f, ENTRY, 'parents start as the negative sentinel %s; parent[start] = start' % [show(v) for v in fills], f.node.lineno,
+            okpi and okfill, 'unreached cells must hold the NONE sentinel the reconstruction tests for (no valid index), and the '
+            'start is its own parent so that start == goal yields the one-cell path')
+    if fname is not None:
+        f0 = byi.get(fname, [])
+        okf0 = None
+        if len(f0) == 1 and isinstance(f0[0].value, Rat):
+            sp = Spec(prog, {})
+            gy, gx = Rat.sym(c.goal_params[0]), Rat.sym(c.goal_params[1])
+            eu = sp.it.app('sqrt', [(SY - gy) * (SY - gy) + (SX - gx) * (SX - gx)])
+            hv = f0[0].value
+            okf0 = hv == Rat.const(0) or hv == eu or (not eu.n.is_zero() and (hv / eu).is_const() and 0 <= (hv / eu).const_value() <= 1)
+        elif not f0:
+            okf0 = byarr[fname][0].arr.init == 'zeros'
+        rep.add('A5', f, ENTRY, 'f[start] = heuristic(start) (g[start] = 0)', f.node.lineno, okf0,
+                'the start\'s priority must be finite and below the argmin\'s initial value, or the first pop finds nothing')
 
 
-def check_argmin(prog, rep, m):
-    entry = 'a_star_search'
-    n = 0
-    for f in m.funcs.values():
-        if f.jit is None:
-            continue
-        # running-minimum loops: `if <...> X < m: m = X; record`
-        for i in [x for x in f.own_nodes() if isinstance(x, ast.If)]:
-            tests = i.test.values if isinstance(i.test, ast.BoolOp) and isinstance(i.test.op, ast.And) else [i.test]
-            for t in tests:
-                if isinstance(t, ast.Compare) and len(t.ops) == 1 and isinstance(t.ops[0], (ast.Lt, ast.LtE)) and \
-                        isinstance(t.comparators[0], ast.Name):
-                    mv = t.comparators[0].id
-                    if any(isinstance(s, ast.Assign) and norm(s.targets[0]) == mv and norm(s.value) == norm(t.left) for s in i.body):
-                        inits = [v for v in f.local_assigns().get(mv, []) if isinstance(v, ast.AST) and norm(v) != norm(t.left)]
-                        txt = norm(inits[0]) if inits else None
-                        ok = txt in ('np.inf', 'numpy.inf', "float('inf')", 'math.inf', 'inf')
-                        table = ARGMIN_TABLE.get(f.name)
-                        if not ok and table and table[0] == txt:
-                            ok = True
-                        n += 1
-                        rep.add('A6', f, entry, '%s: running minimum `%s` starts at %s' % (f.name, mv, txt), i.lineno, ok,
-                                'an argmin with a strict `<` test finds nothing when its initial value is attainable: it must '
-                                'start at +inf (a corner-to-corner distance IS attained by the opposite corner, so the only '
-                                'crossable cell there is never snapped to)')
-    f = m.funcs.get('_find_nearest_pixel')
-    if f is not None:
-        t = [norm(s).replace(' ', '') for s in f.own_nodes()]
-        okself = any(isinstance(s, ast.If) and norm(s.test).replace(' ', '') == 'not_is_not_crossable(data[py,px],barriers)'
-                     and isinstance(s.body[0], ast.Return) and norm(s.body[0].value).replace(' ', '') in ('(py,px)', 'py,px') for s in f.own_nodes())
-        okc = any(isinstance(s, ast.If) and norm(s.test).replace(' ', '') == 'not_is_not_crossable(data[y,x],barriers)' for s in f.own_nodes())
-        okd = any(isinstance(s, ast.Assign) and norm(s.value).replace(' ', '') in ('_distance(x,y,px,py)', '_distance(px,py,x,y)') for s in f.own_nodes())
-        rep.add('A6', f, entry, 'snapping: crossable end point kept; candidates are crossable cells; Euclidean pixel distance',
-                f.node.lineno, okself and okc and okd,
-                'snapping moves an end point to the nearest crossable cell and leaves a crossable end point alone')
-    return n
+def _param_of(a):
+    if isinstance(a, tuple) and a and a[0] == 'param':
+        return a[1]
+    if isinstance(a, Rat):
+        at = _single_atom(a)
+        if at is not None and at.name in ('arr', 'param') and at.args:
+            return at.args[0]
+        n = _single_atom_sym(a)
+        return n
+    if isinstance(a, Arr):
+        return a.name
+    return None
+
+
+# ------------------------------------------------------------------------------------------------ wrapper
+def nan_image(prog, m, fn, e, depth=3):
+    """expression e (in fn) is a freshly allocated all-NaN float array: np.full/full_like(..., np.nan), or zeros/empty
+    followed by `name[:] = np.nan`, or a helper returning one"""
+    if depth == 0 or e is None:
+        return False
+    if isinstance(e, ast.Name):
+        vals = [v for v in fn.local_assigns().get(e.id, []) if isinstance(v, ast.AST)]
+        if len(vals) != 1:
+            return False
+        v = vals[0]
+        if isinstance(v, ast.Call) and short(v) in ('zeros', 'zeros_like', 'empty', 'empty_like', 'ones_like', 'ones'):
+            fills = [s for s in fn.own_nodes() if isinstance(s, ast.Assign) and isinstance(s.targets[0], ast.Subscript) and
+                     norm(s.targets[0].value) == e.id and norm(s.targets[0].slice) in (':', '...', '(:, :)', ':, :') and
+                     norm(s.value) in ('np.nan', 'numpy.nan', "float('nan')", 'np.NaN')]
+            return len(fills) >= 1 and _float_dtype(v)
+        return nan_image(prog, m, fn, v, depth)
+    if isinstance(e, ast.Call):
+        if short(e) in ('full', 'full_like'):
+            fv = e.args[1] if len(e.args) > 1 else kw(e, 'fill_value')
+            return fv is not None and norm(fv) in ('np.nan', 'numpy.nan', "float('nan')", 'np.NaN') and _float_dtype(e)
+        g = prog.resolve_callable(fn, m, e.func)
+        if isinstance(g, Func):
+            rets = [r for r in g.own_nodes() if isinstance(r, ast.Return)]
+            return len(rets) == 1 and nan_image(prog, m, g, rets[0].value, depth - 1)
+    return False
+
+
+def _float_dtype(call):
+    dt = kw(call, 'dtype')
+    return dt is None and short(call) in ('full', 'zeros', 'empty', 'ones') or \
+        (dt is not None and norm(dt) in ('np.float64', 'float', 'np.float32', 'numpy.float64', "'f8'"))
 
 
 def check(prog, rep):
     m = prog.module('pathfinding')
+    pub = m.funcs.get('a_star_search')
+    if pub is None:
+        raise AnalysisIncomplete('a_star_search not found')
+
+    class C:
+        pass
+    c = C()
+    c.pub = pub
+    # the search kernel: the jit function the wrapper calls that contains a while loop
+    kc = None
+    for n in pub.own_nodes():
+        if isinstance(n, ast.Call):
+            t = prog.resolve_callable(pub, m, n.func)
+            if isinstance(t, Func) and t.jit is not None and any(isinstance(x, ast.While) for x in t.own_nodes()):
+                kc = (n, t)
+    if kc is None:
+        raise AnalysisIncomplete('a_star_search: search kernel call not found')
+    call, kern = kc
+    c.kernel = kern
+    c.kargs = {}
+    for p, a in zip(kern.params, call.args):
+        c.kargs[p] = norm(a)
+    for kk in call.keywords:
+        if kk.arg:
+            c.kargs[kk.arg] = norm(kk.value)
+    c.kcall = call
+    # helper roles by use inside the kernel
+    callees = {}
+    for n in kern.own_nodes():
+        if isinstance(n, ast.Call):
+            t = prog.resolve_callable(kern, m, n.func)
+            if isinstance(t, Func):
+                callees[t.name] = t
+    c.recon_func = next((t for t in callees.values() if any(isinstance(x, ast.While) for x in t.own_nodes())), None)
+    # crossable predicate: a callee returning booleans from (value, barriers)
+    c.cross_func = next((t for t in callees.values() if t is not c.recon_func and len(t.params) == 2 and
+                         all(isinstance(r.value, ast.Constant) and isinstance(r.value.value, bool)
+                             for r in t.own_nodes() if isinstance(r, ast.Return))), None)
+    if c.recon_func is None or c.cross_func is None:
+        raise AnalysisIncomplete('search kernel: reconstruction / crossable helpers not identified')
+    c.data = kern.params[0]
+    # parameter roles of the kernel from the reconstruction call
+    c.recon_roles = check_reconstruct(prog, rep, m, c.recon_func)
+    rcall = [n for n in kern.own_nodes() if isinstance(n, ast.Call) and prog.resolve_callable(kern, m, n.func) is c.recon_func]
+    if len(rcall) != 1:
+        raise AnalysisIncomplete('search kernel: reconstruction call not understood')
+    c.rows_param = c.cols_param = None
+    c.roles = None
+    c.min_func = None
     check_pixel_id(prog, rep, m)
-    check_metric(prog, rep, m)
-    check_tables(prog, rep, m)
-    check_search(prog, rep, m)
-    check_argmin(prog, rep, m)
+    check_metric(prog, rep, m, c)
+    check_crossable(prog, rep, m, c.cross_func)
+    if c.recon_roles:       # otherwise the reconstruction rule has already given its verdict
+        rb = {p: norm(a) for p, a in zip(c.recon_func.params, rcall[0].args)}
+        for kk in rcall[0].keywords:
+            rb[kk.arg] = norm(kk.value)
+        rr = c.recon_roles
+        c.img_param = rb.get(rr['img'])
+        c.start_params = [rb.get(rr['start'][0]), rb.get(rr['start'][1])]
+        c.goal_params = [rb.get(rr['goal'][0]), rb.get(rr['goal'][1])]
+        if c.img_param not in kern.params or any(p not in kern.params for p in c.start_params + c.goal_params):
+            raise AnalysisIncomplete('search kernel: image / start / goal are not kernel parameters')
+        check_search(prog, rep, m, c)
+    if c.rows_param and c.cols_param:
+        check_tables(prog, rep, m, c)
+    # argmin scans: the selection helper and every other jit function of the module with a running minimum (snapping)
+    seen = set()
+    if c.min_func is None:
+        for t in callees.values():
+            if t is not c.recon_func and t is not c.cross_func and t.jit is not None and \
+                    any(isinstance(x, ast.For) for x in t.own_nodes()):
+                check_argmin(prog, rep, m, t, 'select')
+                seen.add(t.name)
+    if c.min_func is not None:
+        facts = check_argmin(prog, rep, m, c.min_func, 'select')
+        seen.add(c.min_func.name)
+        if facts and c.roles and getattr(c, 'min_args', None):
+            # the scan's value array / eligibility mask must be bound to (f, open) in that order
+            k = facts['k']
+            V = _single_atom(facts['V'])
+            el = facts['elig']
+            okb = V is not None and V.name in ('read', 'cell?') and len(el) == 1 and el[0][1] is True and \
+                el[0][0].name in ('read', 'cell?')
+            if okb:
+                bind = dict(zip(c.min_func.params, c.min_args))
+                okb = bind.get(V.args[0]) in (c.roles['F'], c.roles['G']) and bind.get(el[0][0].args[0]) == c.roles['OPEN']
+            rep.add('A5', c.min_func, ENTRY, 'selection: minimal %s over cells flagged in %s' % (
+                c.roles['F'], c.roles['OPEN']), c.min_func.node.lineno, okb,
+                'the expanded cell must be the open cell of minimal f-cost')
+    for g in m.funcs.values():
+        if g.jit is None or g.name in seen or g is kern:
+            continue
+        src = ast.unparse(g.node)
+        if not any(isinstance(x, ast.For) for x in g.own_nodes()):
+            continue
+        try:
+            kk = interpret(prog, g, strict=False)
+        except AnalysisIncomplete:
+            continue
+        if not any(getattr(L, 'carried', None) and L.kind == 'range' and any(
+                _single_atom(p) is not None and _single_atom(p).name == 'ite' for _, p in L.carried.values() if isinstance(p, Rat))
+                for L in kk.loops):
+            continue
+        facts = check_argmin(prog, rep, m, g, 'snap')
+        if facts:
+            check_snap(prog, rep, m, c, g, facts)
+    # wrapper: NaN initialised image passed to the kernel
+    img_actual = None
+    for p, a in zip(kern.params, call.args):
+        if p == getattr(c, 'img_param', None):
+            img_actual = a
+    if img_actual is None:
+        return
+    ok = nan_image(prog, m, pub, img_actual)
+    rep.add('A4', pub, ENTRY, 'path image %s is NaN-initialised' % (norm(img_actual) if img_actual is not None else None),
+            call.lineno, ok, 'cells off the path (and everything when no route exists) must be NaN: the image handed to the '
+            'search must be a fresh float array filled with NaN')
+    rets = [r for r in pub.own_nodes() if isinstance(r, ast.Return)]
     rep.floor('A1', 2)
     rep.floor('A2', 2)
     rep.floor('A3', 5)
-    rep.floor('A4', 4)
-    rep.floor('A5', 5)
-    rep.floor('A6', 3)
+    rep.floor('A4', 5)
+    rep.floor('A5', 10)
+    rep.floor('A6', 6)
+
+
+def check_snap(prog, rep, m, c, g, facts):
+    """snapping: the scanned value is the Euclidean pixel distance to the requested cell, eligible cells are the
+    crossable ones, and a crossable request is returned unchanged"""
+    k = facts['k']
+    y, x = facts['cell']
+    V = facts['V']
+    ps = [p for p in g.params]
+    # the requested cell: the parameters indexing the scanned array in the crossable test outside the scan
+    inl0 = getattr(k, 'inlined', [])
+    req = None
+    for r in inl0:
+        if r[0] is c.cross_func and r[1] and isinstance(r[1][0], Rat):
+            aa = _single_atom(r[1][0])
+            if aa is not None and aa.name in ('read', 'cell?') and len(aa.args) >= 3:
+                names = (_sym_name(aa.args[1]), _sym_name(aa.args[2]))
+                if all(n in ps for n in names):
+                    req = names
+    okd = None
+    if req is not None:
+        py, px = req
+        eu = Spec(prog, {}).it.app('sqrt', [(y - Rat.sym(py)) * (y - Rat.sym(py)) + (x - Rat.sym(px)) * (x - Rat.sym(px))])
+        okd = eu == V
+    rep.add('A6', g, ENTRY, '%s: candidates are ranked by Euclidean pixel distance to the requested cell %s' % (g.name, req), g.node.lineno, okd,
+            'snapping moves an end point to the NEAREST crossable cell: the scanned value must be sqrt(dy^2 + dx^2) between the '
+            'candidate (row, col) and the requested (row, col); got %s' % show(V, 100))
+    inl = getattr(k, 'inlined', [])
+    el = facts['elig']
+    okc = len(el) == 1 and el[0][1] is False
+    if okc:
+        recs = [r for r in inl if r[0] is c.cross_func and isinstance(r[3], Rat) and _single_atom(r[3]) == el[0][0]]
+        okc = len(recs) >= 1 and isinstance(recs[0][1][0], Rat) and _single_atom(recs[0][1][0]) is not None and \
+            _single_atom(recs[0][1][0]).name in ('read', 'cell?') and tuple(_single_atom(recs[0][1][0]).args[1:3]) == (y, x)
+    rep.add('A6', g, ENTRY, '%s: candidates are the crossable cells' % g.name, g.node.lineno, okc,
+            'only crossable cells (not NaN, not a barrier) may be snapped to')
+    # early return of a crossable request; result = (row, col) of the minimum
+    oke = None
+    if req is not None:
+        try:
+            xs = [_single_atom(r[3]) for r in inl if r[0] is c.cross_func and isinstance(r[3], Rat) and isinstance(r[1][0], Rat)
+                  and _single_atom(r[1][0]) is not None and tuple(_single_atom(r[1][0]).args[1:3]) == (Rat.sym(req[0]), Rat.sym(req[1]))]
+            if xs:
+                r0 = first_return(k, {xs[0]: F(0)})
+                r1 = first_return(k, {xs[0]: F(1)})
+                keep = isinstance(r0, TupleV) and [(_param_of(i)) for i in r0.items] == list(req)
+                lo = isinstance(r1, TupleV) and len(r1.items) == 2 and all(
+                    _single_atom(i) is not None and _single_atom(i).name == 'loopout' for i in r1.items if isinstance(i, Rat))
+                oke = keep and lo
+        except (CannotEvaluate, AttributeError, StopIteration):
+            oke = None
+    rep.add('A6', g, ENTRY, '%s: a crossable request is kept, otherwise the scan result is returned' % g.name,
+            g.node.lineno, oke, 'snapping leaves a crossable end point alone and returns the argmin as (row, column)')
